@@ -38,6 +38,7 @@ type Engine struct {
 	sccSize       map[int]int
 	missing       []string
 	contractFiles []string
+	known         []KnownFinding
 }
 
 func (e *Engine) warn(f string, a ...any) {
@@ -237,6 +238,7 @@ type FuncCtx struct {
 	curReach      string
 	atSites       map[string]int
 	atMatched     map[int]int
+	curEnv        *Env
 	siteResults   map[string]TV
 	callSites     map[string]int
 }
@@ -312,6 +314,23 @@ func (fc *FuncCtx) oblige(kind, label, guard, goal, desc string, tags []string) 
 		name = name + "@inl:" + fc.inlineOf
 	}
 	o := &Obligation{Fn: t.fnName, Name: name, Kind: kind, Guard: guard, Goal: goal, Desc: desc, Pos: fc.posOf(fc.curInstr), Tags: tags, n: len(fc.q.items)}
+	// a recorded known finding narrows the obligation to the cases outside its `when`
+	if k := fc.eng.knownFor(t.fnName, name); k != nil && k.When != "" && fc.curEnv != nil {
+		we, err := parseExpr(k.When)
+		if err != nil {
+			panic(trErr("known finding " + name + ": " + err.Error()))
+		}
+		var w string
+		if err := catchTr("known finding "+name+" when", func() { w = fc.curEnv.trBool(we) }); err != nil {
+			panic(trErr(err.Error()))
+		}
+		// the finding itself: must still fail, otherwise the entry is stale
+		stale := &Obligation{Fn: t.fnName, Name: name + "/known-case", Kind: "known", Guard: and(guard, w), Goal: goal, Desc: "known finding (expected to fail): " + k.What, Pos: o.Pos, Tags: tags, n: len(fc.q.items), Known: true}
+		fc.q.obls = append(fc.q.obls, stale)
+		o.Goal = fmt.Sprintf("(=> (not %s) %s)", w, goal)
+		o.Desc += "  [outside known finding: " + k.When + "]"
+		goal = o.Goal
+	}
 	fc.q.obls = append(fc.q.obls, o)
 	// assert-then-assume
 	fc.q.assume(fmt.Sprintf("(=> %s %s)", guard, goal))
@@ -1183,7 +1202,9 @@ func (fc *FuncCtx) finish() {
 		if err := catchTr(fmt.Sprintf("%s ensures %d", con.Key, i), func() { t = env.trBool(c.E) }); err != nil {
 			panic(trErr(err.Error()))
 		}
+		fc.curEnv = env
 		o := fc.oblige("post", clauseLabel(c, i), exit, t, "postcondition: "+c.Src, c.Tags)
+		fc.curEnv = nil
 		o.Pos = fc.posOfFn()
 	}
 	if con.HasAssigns {
